@@ -264,7 +264,7 @@ func specialKinds() []*gen.Kind {
 	}
 	for _, k := range gen.Kinds {
 		switch k.Scalar {
-		case "Nothing", "Bool", "UUID", "FixedString", "Interval", "Point", "JSON", "Enum", "String", "Bytes", "RawOf", "DateTime64", "DateTime":
+		case "Nothing", "Bool", "UUID", "FixedString", "Interval", "Point", "JSON", "Enum", "String", "Bytes", "RawOf", "DateTime64", "DateTime", "DecimalPS":
 			if k.Shape == "X" || k.Shape == "Nullable(X)" || k.Shape == "Array(X)" || k.Shape == "LowCardinality(X)" || k.Shape == "Map(String,X)" {
 				specialKindsCache = append(specialKindsCache, k)
 			}
